@@ -1039,6 +1039,12 @@ impl<'a> Gen<'a> {
         if matches!(l.k, EK::Un(..)) {
             l = e(EK::Paren(Box::new(l)));
         }
+        // -A / B and NOT A AND B without parentheses: the prefix binds to the left operand only
+        if self.rng.chance(1, 8) {
+            let v = e(EK::Var(self.rng.pick(&NUM_VARS).to_string()));
+            let logical = matches!(BOPS[op].0, Operator::And | Operator::Or);
+            l = if logical && self.rng.chance(1, 2) { e(EK::Un(1, Box::new(v))) } else { e(EK::Un(0, Box::new(v))) };
+        }
         let b = e(EK::Bin(op, Box::new(l), Box::new(r)));
         match self.rng.below(10) {
             0 => e(EK::Un(1, Box::new(e(EK::Paren(Box::new(b)))))),
@@ -1166,6 +1172,17 @@ impl<'a> Gen<'a> {
                 let suffix = *self.rng.pick(&["%", "%", "&", "!", "#"]);
                 self.loop_counter += 1;
                 let v = format!("I{}{}", self.loop_counter, suffix);
+                if self.rng.chance(1, 6) {
+                    // bounds of another numeric type than the counter are converted to the counter's type
+                    let (lo, hi, step): (E, E, Option<E>) = match self.rng.below(4) {
+                        0 => (e(EK::Lit(Lit::Int(1))), e(EK::Lit(Lit::Single(3.5))), None),
+                        1 => (e(EK::Lit(Lit::Single(0.5))), e(EK::Lit(Lit::Double(2.25))), None),
+                        2 => (e(EK::Lit(Lit::Int(4))), e(EK::Lit(Lit::Single(2.5))), Some(e(EK::Un(0, Box::new(e(EK::Lit(Lit::Int(1)))))))),
+                        _ => (e(EK::Lit(Lit::Int(1))), e(EK::Lit(Lit::Double(1.75))), Some(e(EK::Lit(Lit::Int(1))))),
+                    };
+                    let body = self.block(depth - 1, 2);
+                    return vec![s(SK::For(v, lo, hi, step, body))];
+                }
                 let (lo, hi, step): (i32, i32, Option<E>) = match self.rng.below(8) {
                     // a step of a wider type than the counter is converted to the counter's type
                     6 => (1, 5, Some(e(EK::Lit(Lit::Single(1.5))))),
